@@ -345,4 +345,5 @@ pub fn run(ctx: &mut Ctx) {
     crate::spaces::width_probes(ctx);
     crate::spaces::nested_iteration_probes(ctx);
     crate::spaces::type_grid_probes(ctx, &["map", "filter", "reduce"]);
+    crate::spaces::depth_probes(ctx);
 }
